@@ -104,6 +104,9 @@ pub struct Swarm {
     /// tasks with usage > capacity allowed
     pub cumulative_overload: bool,
     pub max_domain: i32,
+    /// probability that a Boolean is created with `new_literal_for_predicate` over an earlier
+    /// variable
+    pub pred_lits: f64,
 }
 
 impl Swarm {
@@ -127,6 +130,7 @@ impl Swarm {
             cumulative_all_options: true,
             cumulative_overload: false,
             max_domain: 5,
+            pred_lits: *rng.pick(&[0.0, 0.0, 0.0, 0.4, 0.8]),
         }
     }
 }
@@ -454,7 +458,34 @@ pub fn gen_model(rng: &mut Rng, sw: &Swarm) -> (Vec<VarDecl>, Vec<Con>) {
     if sw.reif_rate > 0.0 && !vars.iter().any(|v| v.is_bool()) {
         vars.push(VarDecl::boolean());
     }
-    let planted = if sw.planted { Some(vars.iter().map(|v| *rng.pick(&v.values)).collect()) } else { None };
+    // literals that stand for a predicate over an earlier variable
+    if sw.pred_lits > 0.0 {
+        for i in 1..vars.len() {
+            if vars[i].is_bool() && rng.chance(sw.pred_lits) {
+                let var = rng.below(i);
+                let d = &vars[var];
+                let val = match rng.below(6) {
+                    0 => d.lb() - 1,
+                    1 => d.ub() + 1,
+                    _ => *rng.pick(&d.values),
+                };
+                vars[i] = VarDecl::linked(Pred { var, k: *rng.pick(&Pk::ALL), val });
+            }
+        }
+    }
+    let planted = if sw.planted {
+        let mut p: Vec<i32> = vec![];
+        for v in &vars {
+            let x = match &v.link {
+                Some(l) => l.holds(&p) as i32,
+                None => *rng.pick(&v.values),
+            };
+            p.push(x);
+        }
+        Some(p)
+    } else {
+        None
+    };
     let nc = rng.range(sw.min_cons as i64, sw.max_cons as i64) as usize;
     let mut g = ModelGen { rng, sw, vars, planted };
     let mut cons = vec![];
